@@ -88,7 +88,8 @@ func (n *Node) Start() error {
 	}
 	// A fresh process starts with a cold page cache.
 	n.PC = NewPageCache()
-	s.Invalidator = &Invalidator{PC: n.PC}
+	inv := &Invalidator{PC: n.PC}
+	s.Invalidator = inv
 	if cfg.WrapOS != nil {
 		s.OS = cfg.WrapOS(s.OS)
 	}
@@ -102,6 +103,7 @@ func (n *Node) Start() error {
 	}
 	n.Store = s
 	n.M = NewMount(s, n.PC)
+	inv.M = n.M
 	if err := s.Open(); err != nil {
 		// Store.Open may have failed before or after starting goroutines; Close is safe either way.
 		_ = s.Close()
